@@ -2133,6 +2133,13 @@ class StubElement(Element):
         """Create a stubbed element reference with the specified UUID."""
         return cls(_StubType.STUB, uuid)
 
+    def __copy__(self) -> 'StubElement':
+        """Stubs are immutable and NULL is a singleton compared by identity, so copies are the same object."""
+        return self
+
+    def __deepcopy__(self, memodict: Any = EmptyMapping) -> 'StubElement':
+        return self
+
     def __repr__(self) -> str:
         if self._type is _StubType.STUB:
             return f'<Stub Element: {self.uuid.hex}>'
